@@ -21,6 +21,7 @@ import (
 	"sort"
 	"strconv"
 	"strings"
+	"sync"
 	"time"
 )
 
@@ -103,6 +104,9 @@ func (o *Out) Emit(format string, a ...any) { o.w.Line(format, a...); o.w.Flush(
 // Fail reports a property-predicate failure found by the monitor (never diffed with the model).
 func (o *Out) Fail(sig string, format string, a ...any) {
 	o.monitors++
+	failMu.Lock()
+	failCount[sig]++
+	failMu.Unlock()
 	o.w.Line("#monitor FAIL sig=%s %s", sig, fmt.Sprintf(format, a...))
 	o.w.Flush()
 }
@@ -120,7 +124,16 @@ type Config struct {
 	Exec func(c Case, o *Out)
 	// CaseTimeout aborts the process when a single case runs longer (default 30s).
 	CaseTimeout time.Duration
+	// GiveUpAfter: once the monitor signature has failed this many times in one process, the remaining cases are
+	// answered "#skipped" instead of being run (for failures that cost a wall-clock timeout each, e.g. a hang:
+	// the violation is already reported that many times; the check's driver does not judge skipped cases).
+	GiveUpAfter map[string]int
 }
+
+var (
+	failMu    sync.Mutex
+	failCount = map[string]int{}
+)
 
 func Main(cfg Config) {
 	if len(os.Args) < 2 {
@@ -168,7 +181,21 @@ func runExec(cfg Config) {
 		case len(f) == 2 && f[0] == "case":
 			cur = &Case{ID: f[1]}
 		case len(f) == 1 && f[0] == "end" && cur != nil:
-			runCase(cfg, *cur, w, to)
+			skip := false
+			for sig, n := range cfg.GiveUpAfter {
+				failMu.Lock()
+				if n > 0 && failCount[sig] >= n {
+					skip = true
+				}
+				failMu.Unlock()
+			}
+			if skip {
+				w.Line("case %s", cur.ID)
+				w.Line("#skipped")
+				w.Line("end")
+			} else {
+				runCase(cfg, *cur, w, to)
+			}
 			cur = nil
 		default:
 			if cur != nil {
